@@ -65,7 +65,9 @@ CHECKS: dict[str, dict[str, str]] = {
                  "and address<->script on valid strings and their single-character substitutions, transpositions, case flips, truncations and "
                  "extensions is recomputed by TLC with the BIPs' reference algorithms, as are segwit strings with every padding defect (surplus characters, non-zero partial "
                  "groups) under a recomputed checksum, every key spelling (WIF, xprv, xpub, SLIP132 versions, octets) read with every declared network of the five "
-                 "(which network answers, which addresses it gives), and every ScriptPubKey constructor on every network (remembered network, address)."),
+                 "(which network answers, which addresses it gives), and every ScriptPubKey constructor on every network (remembered network, address). BIP21 payment URIs are specified on bytes "
+                 "(Bip21: scheme, fragment, percent-decoding with strict UTF-8, amount grammar and satoshi exactness, repeated names, the req- rule); TLC checks "
+                 "serialize-then-parse over a hostile alphabet and the recorded parses/serializations of ~400 URIs are recomputed."),
         "technique": "TLA+ transcription of the BIP173/350 reference decoder, Base58Check and address templates; TLC model checking + trace validation",
         "design_ref": "DESIGN.md section 4 C06",
     },
